@@ -121,6 +121,27 @@ class FakeWorker:
 
     has_error = False
     error = None
+    result = None
+    # the rest of the public Worker interface, so that pool code which asks a worker what it is keeps working
+    is_thread = True
+    is_process = False
+    is_remote = False
+    is_persistent = True
+    is_child = False
+    host = 'fake'
+    user_state = None
+
+    @property
+    def userid(self):
+        return self.k
+
+    @property
+    def pid(self):
+        return self.k
+
+    @property
+    def tid(self):
+        return self.k
 
     def close(self):
         pass
